@@ -97,7 +97,7 @@ pub fn gen_opts(ch: &mut Chooser, multi_thread_ok: bool) -> PushOpts {
         threads,
         backup: ch.pick(&["", "always", "onfail", "never"]).to_string(),
         backup_count: ch.pick(&["", "", "all", "0", "1", "2"]).to_string(),
-        fuzz: None,
+        fuzz: if ch.chance(1, 6) { Some(ch.range(1, 3)) } else { None },
         mmap: ch.chance(1, 5),
         verbosity: ch.pick(&["-q", "-q", "", "-v"]).to_string(),
         dry_run: false,
